@@ -4,6 +4,17 @@ import z3
 from .interp import TRUE, FALSE
 
 
+def _budget(ctx):
+    """remaining milliseconds of this VC group's wall-clock budget (quick 240 s, thorough 3600 s; VERIF_VC_BUDGET_S overrides): a change
+    that removes a lock multiplies the yield points, and the check has to stay usable - what is not decided in time is INCONCLUSIVE"""
+    import os
+    import time
+    if not hasattr(ctx, "_t_start"):
+        ctx._t_start = time.time()
+    total = float(os.environ.get("VERIF_VC_BUDGET_S", 240 if ctx.tier == "quick" else 3600))
+    return int(max(0.0, total - (time.time() - ctx._t_start)) * 1000)
+
+
 def order_from_model(il, model):
     """thread names of the executed blocks (path condition true in the model) in schedule order"""
     idx = sorted(range(len(il.tau)), key=lambda i: model.eval(il.tau[i], model_completion=True).as_long())
@@ -19,8 +30,12 @@ def solve(ctx, il, query, bad, extra=(), vars=None, replay=None, desc=""):
     """one schedule query: unsat = holds for every interleaving; sat = schedule, replayed on the real code"""
     import time
     E = il.E
+    left = _budget(ctx)
+    if left <= 0:
+        ctx._rec(kind="prove", query=query, status="inconclusive", desc=desc, reason="time budget of this VC group exhausted before the query was asked")
+        return
     s = z3.Solver()
-    s.set("timeout", ctx.timeout_ms)
+    s.set("timeout", min(ctx.timeout_ms, left))
     s.add(*E.assumptions)
     s.add(*il.cons)
     s.add(*extra)
@@ -67,7 +82,7 @@ def feasible(ctx, il, query, cond=TRUE):
     """vacuity twin: some complete schedule exists (also shows absence of a lock-ordering deadlock for these operations)"""
     import time
     s = z3.Solver()
-    s.set("timeout", ctx.timeout_ms)
+    s.set("timeout", max(1000, min(ctx.timeout_ms, _budget(ctx))))
     s.add(*il.E.assumptions)
     s.add(*il.cons)
     s.add(cond)
@@ -122,7 +137,7 @@ def bounds_ok(ctx, il, prefix):
     (or a reference outside the declared universe)"""
     import time
     s = z3.Solver()
-    s.set("timeout", ctx.timeout_ms)
+    s.set("timeout", max(1000, min(ctx.timeout_ms, _budget(ctx))))
     s.add(*il.E.assumptions)
     s.add(*il.cons)
     s.add(il.overflow_cond())
